@@ -44,6 +44,7 @@ INPUTS = {
                           "\t{\n\t\tr = -1;\n\t}\n\treturn: r\n}\n"), ("core:text/char.pn", None)], True, 5),
     "unnamed_core_library": ([("main.pn", "import \"core:text/char.pn\";\n\nfn main() -> i32\n{\n\tvar r: i32 = 5;\n"
                                "\tif is_control_char(0) == false\n\t{\n\t\tr = -1;\n\t}\n\treturn: r\n}\n")], False, [477]),
+    "pointer_cast_without_cast": ([("main.pn", "fn main() -> i32\n{\n\tvar x: u32 = 17;\n\tvar y: &i32 = &x as &i32;\n\treturn: y\n}\n")], False, [552]),
     "missing_file": ([], False, None),
     "empty_file": ([("main.pn", "")], False, [101]),
 }
